@@ -36,6 +36,8 @@ def o_call(self, I, args, kwargs, node):
 
 
 def o_method(self, I, name, args, kwargs, node):
+    if not args and not kwargs:      # argument-less accessor methods are functions of the receiver
+        return SOpaque(ufun(f"U!m.{name}", U(), U())(self.t), "any")
     return SOpaque(I.ctx.fresh(f"m_{name}", U()), "any")
 
 
